@@ -30,6 +30,36 @@ CHECKS = {
             "Compaction-heavy histories: every Punch event is checked against the page-rounded content of every region according to both the durable regions-file shadow and the live one; each compact() is followed by a full model comparison and layout walk; the data-file length must not change; every event boundary inside compact() yields crash images judged as in C05. (The concurrent clause is served by the controlled scheduler, see DESIGN.)",
             "Same OS model as C05; punch support of the scratch file system is required (otherwise inconclusive).",
             "DESIGN.md §4 C12"),
+    "C03": ("E-MODEL", "exploration",
+            "reference-model monitor over generated operation histories on every stored format (step-wise comparison)",
+            "Seeded operation histories (push, truncate, write, flush, stamped write, reset, reset_unsaved, re-import through the creating entry point, and on raw formats update/delete/take/fill_first_hole_or_push) are run on 36 (format, element type) instantiations - Bytes, ZeroCopy, Pco, LZ4, Zstd and EagerVec wrappers over u8..u128, i64, f32/f64 (bit-compared), byte arrays of 3/16/33 bytes and derive(Bytes)/derive(Pco) wrappers. After every operation len, every slot (collect_holed), the deleted-slot set, the stamp and the dense collect() are compared with a list-of-optional-values model; write() is placed at random positions so buffered/stored splits vary. Write regimes (raw: new data / truncated / holes region created / removed; compressed: fast raw append / partial re-encode / fresh pages / boundary truncate) are measured and required.",
+            "Trusts the ~150-line model (semantics taken from README/rustdoc); vectors up to ~6 pages; every format is compared with the same deterministic model rather than pairwise.",
+            "DESIGN.md §4 C03"),
+    "C04": ("E-MODEL", "exploration",
+            "reference-model monitor with a commit chain over generated commit/edit/rollback histories",
+            "Histories of stamped_write_with_changes commits (retention 1..6, increasing stamps with gaps, no-op commits, re-committing a used stamp after rollback), edits between commits (push, truncate below the stored length, update, delete, take, fill), rollback and rollback_before (targets inside, at and beyond the window) and continuations after every rollback (edit, commit, re-import, roll back again) on all formats; after every operation contents, deleted slots and stamp must equal the model's commit chain, and the result of every call (Ok / error class / returned stamp) must be the one the model predicts.",
+            "Rollbacks are issued only from committed states and only pushes/truncations/updates/deletions occur between commits (the statement's domain); the shrinker stays inside that domain.",
+            "DESIGN.md §4 C04"),
+    "C07": ("E-MODEL", "exploration",
+            "bit-exact model comparison + independent parser of the on-disk page index after every write",
+            "Compressed vectors (Pco, LZ4, Zstd x integer/float/byte-array elements) are driven through chunked pushes, writes, truncations (into the raw page, into a compressed page, on a boundary) and re-imports; all values are compared bit-exactly (NaN payloads, +-0, subnormals, MIN/MAX are generated regularly) and after every write()/flush/commit/re-import the `<name>_pages` region is read through rawdb and parsed by the harness: gap-free from the header, all pages but the last full and compressed, counts add up to the stored length, data region ends at the last page. The (fill, push, truncate) triples around 0, one page and two pages (13^3 per vector) are enumerated completely for u64 on each codec (more element widths in the thorough tier).",
+            "The parser of the 16-byte page entries is the harness's own (written from the format description); values are generated, not exhaustive.",
+            "DESIGN.md §4 C07"),
+    "C08": ("E-MODEL", "exploration",
+            "differential read-API grid against the reference contents in every state reached by C03/C04 histories",
+            "In states reached by C03/C04 histories (clean, buffered, truncated, with deleted slots, after rollback) every read API - collect*, collect_range*, collect_one*, signed ranges, fold/try_fold (early exit), for_each*, read_into (append contract), cursor (next/advance/fold/get/position), sorted reads with duplicates and out-of-range tail, min/max/sum, VecReader get/try_get, ZeroCopy read_ref, read-only clone, boxed clone, CachedVec, fold_stored_io/mmap - is called over a grid of (from,to) pairs (0, +-1 around the stored/buffered and page boundaries, len, len+1, usize::MAX, reversed, random) and compared with the model restricted to the range; a panic is a violation. The whole campaign is repeated with the scan back-end crossover set to 0 and 64 bytes (file-IO sources through the generic entry points) and with the default.",
+            "Stored-only views (read-only clones, VecReader, fold_stored_*) are compared with what the last write() stored and are only exercised (not value-judged) between a rollback and the next write; VecReader::get only in range (documented panic).",
+            "DESIGN.md §4 C08"),
+    "C13": ("E-MODEL", "exploration",
+            "full before/after snapshot around every refused request + continuation under the step-wise model",
+            "Refused requests (rawdb: write_at beyond the end, truncate beyond the length, rename onto an existing name, rename/remove of a removed region, remove with a second live handle, remove of an unknown name; vecdb: update beyond len, checked push at a wrong index, plain import with another version / as another format, rollback without a usable change record) are issued inside ordinary C01/C03/C04 histories. Each must return an error; a full snapshot (every region's start/reserved/len/content, layout walk, file length, change directory, the vector's volatile view) taken before must equal the one taken after, and the history continues (flush, reopen/re-import included) under the step-wise model comparison.",
+            "I/O failures of the environment are not injected; refusals are issued in generated states, not all states.",
+            "DESIGN.md §4 C13"),
+    "C20": ("E-MODEL", "exploration",
+            "online access monitor: every byte range fetched from the mapping or the data file is checked against the vector's own regions",
+            "The C08 read grid is driven in C03/C04 states (incl. after truncation, after rollback across truncating commits, and through read-only clones / VecReaders) while the observer receives an Access event for every pointer read from the mapping (Reader::unchecked_read, raw strategy reads per element, bulk memcpy reads, ZeroCopy reference reads) and a FileRead event for every file-IO buffer refill; each range must lie within [start, start+len) of the vector's data, page-index or holes region according to the region metadata at that moment. Repeated with the file-IO back-end forced.",
+            "A read site without a tap is invisible (the C08 value comparison still sees its result); single-threaded.",
+            "DESIGN.md §4 C20"),
 }
 
 NOT_YET = {}
@@ -67,7 +97,7 @@ def main():
             "add_only": False,
         },
         "engines": [
-            {"name": "E-MODEL", "path": "harness/src/rawmodel.rs, harness/src/c_raw.rs", "serves_properties": ["C01", "C02", "C13"], "kind_free_text": "seeded history generator + reference model + step-wise comparator + ddmin shrinker"},
+            {"name": "E-MODEL", "path": "harness/src/rawmodel.rs, harness/src/c_raw.rs, harness/src/vecmodel.rs, harness/src/c_vec.rs, harness/src/probes.rs", "serves_properties": ["C01", "C02", "C03", "C04", "C07", "C08", "C13", "C20"], "kind_free_text": "seeded history generator + reference model + step-wise comparator + ddmin shrinker (rawdb regions and vecdb vectors)"},
             {"name": "E-CRASH", "path": "harness/src/crash.rs, harness/src/c_crash.rs", "serves_properties": ["C05", "C12"], "kind_free_text": "durable-image shadow of both files from hook events; crash images recovered by the real open"},
             {"name": "E-LAYOUT", "path": "harness/src/rawmodel.rs (check_layout)", "serves_properties": ["C02", "C10", "C13"], "kind_free_text": "extent/partition invariant walker at quiescent points"},
         ],
